@@ -8,5 +8,16 @@ for id in "$@"; do
   rm -rf /tmp/seedtest_out; mkdir -p /tmp/seedtest_out; cp -r /verif/known_findings.json /tmp/seedtest_out/; [ -d /verif/regress ] && cp -r /verif/regress /tmp/seedtest_out/; out=$(cd /verif && RXV_OUT_DIR=/tmp/seedtest_out ./check $id quick 2>&1); rc=$?
   sig=$(echo "$out" | grep -E "signature=" | head -1 | sed 's/detail=.*//')
   echo "$N vs $id: exit=$rc $sig"
+  # keep the shrunk failing case as a regression tape (passes on the unchanged tree, fails with this change)
+  if [ $rc -eq 1 ] && [ -n "$SAVE_REGRESS" ]; then
+    f=$(ls -t /tmp/seedtest_out/replays/$id-*.json 2>/dev/null | head -1)
+    if [ -n "$f" ]; then mkdir -p /verif/regress/$id; python3 - "$f" "/verif/regress/$id/seed-$N.json" "$N" <<'PY'
+import json,sys
+j=json.load(open(sys.argv[1]))
+out={"part":j["part"],"part_name":j.get("part_name"),"picks":j["picks"],"origin":"shrunk case that exposed seeded change "+sys.argv[3]+" (signature "+j["signature"]+"); must pass on the unchanged tree"}
+json.dump(out,open(sys.argv[2],"w"),indent=1)
+PY
+    fi
+  fi
 done
 git -C /repo checkout -- .
